@@ -132,11 +132,86 @@ def _table_records(project, fi, f):
     return recs
 
 
+def _verify_gl_table(lg, w, x):
+    """None when (w, x) are the positive nodes / weights of the 2·lg-point Gauss–Legendre rule, else what is wrong"""
+    if len(w) != lg or len(x) != lg:
+        return f"{len(x)} nodes and {len(w)} weights are returned for a rule declared to have {lg} points"
+    n = 2 * lg
+    for i, (xi, wi) in enumerate(zip(x, w)):
+        if not (0 < xi < 1):
+            return f"node {i} = {xi} is outside (0,1)"
+        p, dp = _legendre(n, xi)
+        if abs(p) > 1e-12:
+            return f"node {i} = {xi!r} is not a root of P_{n} (|P_{n}(x)| = {abs(p):.2e})"
+        wt = 2.0 / ((1 - xi * xi) * dp * dp)
+        if abs(wt - wi) > 1e-12:
+            return f"weight {i} = {wi!r} is not 2/((1−x²)P′_{n}(x)²) = {wt!r}"
+    if abs(sum(w) - 1.0) > 1e-12:
+        return f"weights sum to {sum(w)!r}, not 1"
+    if len(set(x)) != len(x):
+        return "repeated node"
+    return None
+
+
+_REGIME_PROBES = (0.0, 0.29, 0.2999, 0.3, 0.31, 0.5, 0.74, 0.7499, 0.75, 0.76, 0.99)
+
+
+def _gl_by_evaluation(project, fi):
+    """gauss_legendre_quad evaluated at correlations on both sides of every published bound, both signs:
+    {r: (lg, weights, nodes)} when every run is exact and concrete, else None"""
+    from ..selftest.conformance.run import NotConcrete, to_python
+    out = {}
+    for r0 in _REGIME_PROBES:
+        for r in ((r0, -r0) if r0 else (r0,)):
+            I = Interp(project, Config())
+            try:
+                v = I.run(fi.qualname, {fi.params[0]: Sc(sym.Num(r))})
+                if I.unmodelled or I.lossy or not isinstance(v, Seq) or len(v.items) != 3:
+                    return None
+                lg, w, x = (to_python(t) for t in v.items)
+            except (NotConcrete, AnalysisError, RecursionError, TypeError):
+                return None
+            if not isinstance(lg, float) or not isinstance(w, list) or not isinstance(x, list) \
+                    or not all(isinstance(t, float) for t in w + x):
+                return None
+            out[r] = (int(lg), w, x)
+    return out
+
+
 def check_gl(project: Project, rep):
     from .common import expand_locals, fn_view
     fi = project.function(f"{MOD}.gauss_legendre_quad")
     rep.analysed(fi)
     f = fn_view(project, fi)
+    # first by evaluation — wherever the tables are kept (literals in the arms, a module-level table, a helper), what counts is
+    # what the function hands back for a given correlation; the readers of the source shapes below are the fall-back
+    ev = _gl_by_evaluation(project, fi) if fi.params else None
+    if ev is not None:
+        seen = {}
+        wrong = []
+        for r, (lg, w, x) in sorted(ev.items()):
+            want_lg = 3 if abs(r) < 0.3 else 6 if abs(r) < 0.75 else 10
+            if lg != want_lg:
+                wrong.append((r, lg, want_lg))
+            seen.setdefault(lg, (w, x))
+        for lg, (w, x) in sorted(seen.items()):
+            bad = _verify_gl_table(lg, w, x)
+            if bad:
+                rep.refuted("KN-GL", fi, f, f"{2 * lg}-point Gauss–Legendre table (lg={lg}): {bad}",
+                            construct=f"{fi.qualname}: table lg={lg}")
+            else:
+                rep.discharged("KN-GL", fi, f, f"lg={lg}: all {lg} positive nodes are roots of P_{2 * lg} and the weights are "
+                                               f"2/((1−x²)P′²) (residuals ≤ 1e-12), Σw = 1 (tables as returned by the function)")
+        if wrong:
+            r, lg, want_lg = wrong[0]
+            rep.refuted("KN-REGIME", fi, f, f"for r = {r} the {lg}-point rule is returned, the published regimes (|r| < 0.3 → 3, "
+                                            f"< 0.75 → 6, else 10) give {want_lg}" + ("; the regime is chosen by r, not |r|" if r < 0 and ev.get(-r, (None,))[0] == want_lg else ""),
+                        construct=f"{fi.qualname}: regime at r={r}")
+        else:
+            rep.discharged("KN-REGIME", fi, f, f"regimes by |r|: <0.3 → 3 points, <0.75 → 6, else 10 (Genz) — the function evaluated at "
+                                               f"{len(ev)} correlations on both sides of each bound, both signs")
+            rep.discharged("KN-REGIME", fi, f, "negative correlations get the rule of their absolute value", nontrivial=False)
+        return
     ret = [n for n in ast.walk(f) if isinstance(n, ast.Return)]
     branches = []
     if len(ret) == 1 and isinstance(ret[0].value, ast.Tuple) and len(ret[0].value.elts) == 3 \
